@@ -21,6 +21,10 @@
         number of 1-bits of the range.
     [bitmap.Of/walk] [ps; opt] (ps strictly ascending, non-negative; opt = [] or [n]): build with
         Of(ps, n), walk the whole result with NextOne and with PrevOne; spec = [ps; rev ps].
+    [bitmap.Next/Select32] [segs]: the NextOne walk of the whole bitmap, and Select32 / Select32R64 (over
+        IndexSelect32 / IndexSelect32R64) for every index of the walk ([WalkSelect]):
+        [walk; [[a,b]..] of Select32; [[a,b]..] of Select32R64]; spec = [ones; pairs; pairs], pairs = the k-th and
+        (k+1)-th 1-bit (64*len after the last).
     [bitmap.NextOne/any] [bitmap.PrevOne/any] [segs; i; e]: ANY int32 [i], [e] (outside the property's domain
         too); model = int32 model, spec = Spec/NextTotalSpec.v (exact panic sets).  DIAGNOSTIC ONLY: no
         generator of ./check C13 emits these (behaviour outside the stated domain is not compared by the
@@ -105,6 +109,8 @@ Fixpoint ascendingb (prev : Z) (l : list Z) : bool :=
 Definition ofwalk_dom (ps : list Z) (opt : option Z) : bool :=
   ascendingb (-1) ps && (last ps 0 <? 2^30) && match opt with Some n => n <? 2^30 | None => true end.
 
+Definition vpairs (l : list (Z * Z)) : val := VL (map (fun p => VL [VZ (fst p); VZ (snd p)]) l).
+
 Definition i32_okb (x : Z) : bool := (- 2^31 <=? x) && (x <? 2^31).
 
 Definition ops_C13_wide : list opdef := [
@@ -175,6 +181,22 @@ Definition ops_C13_wide : list opdef := [
        | [bm; tr; i; e] => match as_bm bm, as_z i, as_z e with
            | Some bm, Some i, Some e => let c := zlen (ones_in bm i e) in vzs [c; c; c]
            | _, _, _ => VBad end
+       | _ => VBad end) |};
+  {| op_name := "bitmap.Next/Select32";
+     op_run := fun a => match a with
+       | [bm] => match as_bm bm with
+           | Some bm =>
+               match WalkSelect bm with
+               | Some (l, s1, s2) => VL [vzs l; vpairs s1; vpairs s2]
+               | None => VPanic
+               end
+           | None => VBad end
+       | _ => VBad end;
+     op_spec := fun_spec (fun a => match a with
+       | [bm] => match as_bm bm with
+           | Some bm => let o := ones (flat bm) in let ps := sel_pairs o (64 * zlen bm) in
+                        VL [vzs o; vpairs ps; vpairs ps]
+           | None => VBad end
        | _ => VBad end) |};
   {| op_name := "bitmap.NextOne/any";
      op_run := fun a => with_bm_i_e a (fun _ i e => i32_okb i && i32_okb e) (fun bm i e => voz (NextOne32 bm i e));
